@@ -320,8 +320,25 @@ def sampling_rules(chk, repo, clause):
     want = nf.app('nonzero', nf.app('bitand', nf.app('le', nf.app('amin', sub), sup), nf.app('le', sup, nf.app('amax', sub))))
     rets = returns(paths)
     want_mask = nf.app('bitand', nf.app('le', nf.app('amin', sub), sup), nf.app('le', sup, nf.app('amax', sub)))
-    chk.ob(clause, 'T-comparison', f.key, 'samples of the common grid inside the closed range of the operand',
-           len(rets) == 1 and rets[0].ret in (want, want_mask), fmt(rets[0].ret)[:200] if rets else '', f.loc())
+    def ss(x, side):
+        return [nf.app('numpy.searchsorted', sup, x, Tup([Tup([Const('side'), Const(side)])])) if side else
+                nf.app('numpy.searchsorted', sup, x)]
+    # on an increasing grid the samples inside [min, max] are the run from the first one >= min up to the last one <= max
+    want_slices = [nf.Slice(lo, hi, st) for lo in ss(nf.app('amin', sub), 'left') + ss(nf.app('amin', sub), None)
+                   for hi in ss(nf.app('amax', sub), 'right') for st in (NONE, C(1))]
+    ok_i, det_i = None, 'result not understood'
+    if len(rets) == 1:
+        r = rets[0].ret
+        det_i = fmt(r)[:200]
+        if r in (want, want_mask) or r in want_slices:
+            ok_i = True
+        else:
+            vocabulary = ('nonzero', 'bitand', 'and', 'le', 'lt', 'amin', 'amax', 'numpy.searchsorted', 'where')
+            parts = [r.lo, r.hi] if isinstance(r, nf.Slice) else [r]
+            if all(isinstance(x, (Poly, Const)) for x in parts) and \
+                    all(a[0] == 'sym' or is_app(a, vocabulary) for x in parts if isinstance(x, Poly) for a in x.atoms(deep=True)):
+                ok_i = False        # the same building blocks put together differently: another set of samples
+    chk.ob(clause, 'T-comparison', f.key, 'samples of the common grid inside the closed range of the operand', ok_i, det_i, f.loc())
     f, paths, _ = analyse(repo, 'radiometry._sampling', config={'method': Const('min')})
     wave = S('wave')
 
